@@ -231,7 +231,20 @@ func main() {
 		}(w)
 	}
 	wg.Wait()
+	// the flush-commit window (process-wide hook: one program at a time)
+	var kwin []string
+	nWin, kWin := 24, 24
+	if a.Thorough() {
+		nWin, kWin = 300, 120
+	}
+	if a.Extra == "search" {
+		kWin = 0
+	}
+	if !stopNow(res) {
+		runWindowCases(res, master.Fork(), nWin, kWin, &kwin, kMaxRaw, kMaxMoves)
+	}
 	var cases []string
+	cases = append(cases, kwin...)
 	for w := 0; w < W; w++ {
 		cases = append(cases, outs[w].kcomp...)
 	}
